@@ -640,6 +640,19 @@ pub fn seeds_text(rng: &mut Rng, per_type: usize) -> Vec<(&'static str, String)>
         let n = rng.usize_below(4);
         v.push(("OrderQueue", queuev(rng, n).to_string()));
     }
+    // list-shaped values with several elements are always among the seeds (separators between
+    // elements are where list parsers go wrong)
+    v.push(("PriceLevel", levelv(rng, 2).to_string()));
+    v.push(("PriceLevel", levelv(rng, 3).to_string()));
+    v.push(("OrderQueue", queuev(rng, 2).to_string()));
+    v.push(("OrderQueue", queuev(rng, 3).to_string()));
+    v.push(("TransactionList", TransactionList::from_vec(vec![txv(rng), txv(rng), txv(rng)]).to_string()));
+    {
+        let mut m = mrv(rng);
+        m.transactions = TransactionList::from_vec(vec![txv(rng), txv(rng)]);
+        m.filled_order_ids = vec![idv(rng), idv(rng), idv(rng)];
+        v.push(("MatchResult", m.to_string()));
+    }
     for k in KINDS {
         v.push(("OrderType", model::mk(k, idv(rng), 100, 5, if k.layered() { 5 } else { 0 }, Side::Buy, 7, TimeInForce::Gtd(5), &Params::default()).to_string()));
     }
@@ -680,6 +693,19 @@ pub fn seeds_json(rng: &mut Rng, per_type: usize) -> Vec<(&'static str, String)>
         }
         let n = rng.usize_below(3);
         v.push(("json:OrderQueue", js(&queuev(rng, n))));
+    }
+    {
+        let l = levelv(rng, 3);
+        v.push(("json:PriceLevel", js(&l)));
+        v.push(("json:PriceLevelSnapshot", js(&l.snapshot())));
+        if let Ok(pk) = l.snapshot_package() {
+            v.push(("from_snapshot_json", js(&pk)));
+        }
+        v.push(("json:OrderQueue", js(&queuev(rng, 3))));
+        let mut m = mrv(rng);
+        m.transactions = TransactionList::from_vec(vec![txv(rng), txv(rng)]);
+        m.filled_order_ids = vec![idv(rng), idv(rng)];
+        v.push(("json:MatchResult", js(&m)));
     }
     v.push(("json:Side", "\"BUY\"".into()));
     v.push(("json:PegReferenceType", "\"MidPrice\"".into()));
